@@ -11,6 +11,10 @@ FALSE = 0
 TRUE = 1
 
 
+class BddBudget(Exception):
+    """raised when an operation run under a node budget would exceed it"""
+
+
 class BDD:
     def __init__(self):
         self.var = [1 << 60, 1 << 60]
@@ -21,6 +25,7 @@ class BDD:
         self._xor = {}
         self._not = {}
         self._ite = {}
+        self.limit = None     # node budget (see budget())
         self.names = {}       # rank -> name
         self.rank_of = {}     # name -> rank
 
@@ -32,6 +37,8 @@ class BDD:
         n = self.unique.get(key)
         if n is None:
             n = len(self.var)
+            if self.limit is not None and n > self.limit:
+                raise BddBudget()
             self.var.append(v)
             self.lo.append(lo)
             self.hi.append(hi)
